@@ -8,9 +8,13 @@ package f3
 import (
 	"context"
 	"path/filepath"
+	"reflect"
 	"sort"
 	"strings"
+	"time"
+	"unsafe"
 
+	"github.com/filecoin-project/go-f3/certs"
 	"github.com/filecoin-project/go-f3/certstore"
 	"github.com/filecoin-project/go-f3/ec"
 	"github.com/filecoin-project/go-f3/gpbft"
@@ -160,3 +164,94 @@ func VerifF3FilterDump(m *F3) (uint64, []VerifSeen, []VerifActive, bool) {
 	c, s, a := verifDumpFilter(&st.runner.equivFilter)
 	return c, s, a, true
 }
+
+// ---- runner stage of C15 (spec/host/Runner.tla): instance advancement, scheduling, event loop.
+// Add-only, thin: every function below calls the production method of the same name (or reads a field).
+
+// VerifNewRunnerOut is VerifNewRunner that also hands out the channel on which the participant
+// requests broadcasts (F3.MessagesToSign reads it in production).
+func VerifNewRunnerOut(ctx context.Context, cs *certstore.Store, backend ec.Backend, ps *pubsub.PubSub, verifier gpbft.Verifier,
+	m manifest.Manifest, walDir string, pid peer.ID) (*VerifRunner, <-chan *gpbft.MessageBuilder, error) {
+	wal, err := writeaheadlog.Open[walEntry](walDir)
+	if err != nil {
+		return nil, nil, err
+	}
+	out := make(chan *gpbft.MessageBuilder, 256)
+	r, err := newRunner(ctx, cs, backend, ps, verifier, out, m, wal, pid)
+	if err != nil {
+		return nil, nil, err
+	}
+	return &VerifRunner{r: r}, out, nil
+}
+
+func (v *VerifRunner) ComputeNextInstanceStart(c *certs.FinalityCertificate) time.Time {
+	return v.r.computeNextInstanceStart(c)
+}
+func (v *VerifRunner) ReceiveCertificate(ctx context.Context, c *certs.FinalityCertificate) error {
+	return v.r.receiveCertificate(ctx, c)
+}
+func (v *VerifRunner) StartInstanceAt(ctx context.Context, instance uint64, at time.Time) error {
+	return v.r.startInstanceAt(ctx, instance, at)
+}
+func (v *VerifRunner) Progress() gpbft.InstanceProgress { return v.r.Progress() }
+func (v *VerifRunner) Start(ctx context.Context) error  { return v.r.Start(ctx) }
+func (v *VerifRunner) Stop(ctx context.Context) error   { return v.r.Stop(ctx) }
+
+// Alarm reads the alert timer (mock clock): the time it is set for, whether it is still waiting,
+// and whether it has fired without the tick having been taken yet.
+func (v *VerifRunner) Alarm() (at time.Time, waiting bool, fired bool) {
+	t := v.r.alertTimer
+	rv := reflect.ValueOf(t).Elem()
+	nf, sf := rv.FieldByName("next"), rv.FieldByName("stopped")
+	at = *(*time.Time)(unsafe.Pointer(nf.UnsafeAddr()))
+	waiting = !*(*bool)(unsafe.Pointer(sf.UnsafeAddr()))
+	return at, waiting, len(t.C) > 0
+}
+
+// TakeAlarm does what the event loop does when the alert timer has fired (host.go:202-203); it
+// returns false (and does nothing) when no tick is waiting.
+func (v *VerifRunner) TakeAlarm(ctx context.Context) (bool, error) {
+	select {
+	case <-v.r.alertTimer.C:
+		return true, v.r.participant.ReceiveAlarm(ctx)
+	default:
+		return false, nil
+	}
+}
+
+// TakeMessage does what the pubsub validator and the event loop do with a complete message
+// (host.go:566, host.go:228).
+func (v *VerifRunner) TakeMessage(ctx context.Context, msg *gpbft.GMessage) (validateErr, receiveErr error) {
+	vm, err := v.r.participant.ValidateMessage(ctx, msg)
+	if err != nil {
+		return err, nil
+	}
+	return nil, v.r.participant.ReceiveMessage(ctx, vm)
+}
+
+// Queued: the messages the participant holds for a future start of `instance`.
+func (v *VerifRunner) Queued(instance uint64) []*gpbft.GMessage {
+	return v.r.participant.VerifQueued(instance)
+}
+
+// SelfInstances: the instances selfMessages holds entries for.
+func (v *VerifRunner) SelfInstances() []uint64 {
+	v.r.msgsMutex.Lock()
+	defer v.r.msgsMutex.Unlock()
+	out := make([]uint64, 0, len(v.r.selfMessages))
+	for i := range v.r.selfMessages {
+		out = append(out, i)
+	}
+	sort.Slice(out, func(i, j int) bool { return out[i] < out[j] })
+	return out
+}
+
+// VerifSetTracer replaces the tracer handed to every participant created afterwards (logging.go:9).
+func VerifSetTracer(t gpbft.Tracer) gpbft.Tracer {
+	old := tracer
+	tracer = t
+	return old
+}
+
+// Begun: the participant has begun its current instance (proposal and committee fetched).
+func (v *VerifRunner) Begun() bool { return v.r.participant.VerifBegun() }
